@@ -2,6 +2,7 @@ import TFV.Properties.Select
 import TFV.Properties.Src.Bsearch
 import TFV.Properties.Src.Tournament
 import TFV.Properties.Src.Sampling
+import TFV.Properties.Src.MinMax
 #print axioms TFV.Select.C11_bsearch_eq_firstGe
 #print axioms TFV.Select.C11_bsearch_interval
 #print axioms TFV.Select.C11_weight_positive
@@ -33,3 +34,5 @@ import TFV.Properties.Src.Sampling
 #print axioms TFV.SrcTie.C11_src_random_weighted_sample_repl
 #print axioms TFV.SrcTie.C11_src_sattolo_perm
 #print axioms TFV.SrcTie.C11_src_random_sample_distinct
+#print axioms TFV.SrcTie.C11_src_minmax_scale
+#print axioms TFV.SrcTie.C11_src_minmax_scale_empty
